@@ -6,6 +6,8 @@
 From Coq Require Import String.
 From Coq Require Import List ZArith Bool Arith.
 From NT Require Import Sx Rose Nav NavProofs NavLaws NavSource.
+From NT Require FsRepr FsReprDecode MiscMapper MiscRepr MiscNode MiscNodeProofs.   (* part NODEMISC, imported at the end of this file *)
+From NT Require MiscMapperProofs MiscForward MiscForwardProofs.   (* part FORWARD, imported at the end of this file *)
 From NTGen Require Import Generated.
 Import ListNotations.
 
@@ -470,3 +472,192 @@ Theorem C10_parent_is_the_rows_parent : forall f, NoDup (ids f) -> ~ In 0 (ids f
             SurgeryFacts.r_par r = match q_parent c with Some p => rid p | None => 0 end.
 Proof. exact GluePreNav.row_parent_is_nav_parent. Qed.
 Print Assumptions C10_parent_is_the_rows_parent.
+
+(* ==== PART NODEMISC: the accessors of Node / Tree that the relationship model does not contain (model
+   theories/Forest/MiscNode.v, correspondence Cases/CaseMiscNode.v, harness parts_misc.NODEMISC).  [ent] = an object a
+   caller can hold: [ERoot] the invisible system root, [ENode c] a node with its context; [raw_parent] is the `_parent`
+   slot; [reg] the key order of `_node_by_id`, [reg_ok f reg] = it holds exactly the nodes of the forest (a clause of the
+   C01 invariant); `random` is an explicit stream of draws. ==== *)
+Import FsReprDecode MiscMapper MiscRepr MiscNode MiscNodeProofs.
+Local Open Scope nat_scope.
+
+(* is_system_root is true exactly for the system root: false for every node of every forest *)
+Theorem C10_misc_is_system_root : (forall e, is_system_root e = true <-> e = ERoot) /\ (forall c, is_system_root (ENode c) = false).
+Proof. exact (conj is_system_root_iff is_system_root_node). Qed.
+Print Assumptions C10_misc_is_system_root.
+
+(* a top-level node hangs below the root object itself, every other node below its parent node *)
+Theorem C10_misc_parent_slot : forall c,
+  (q_is_top c = true -> raw_parent (ENode c) = Some 0) /\
+  (q_is_top c = false -> exists p, q_parent c = Some p /\ raw_parent (ENode c) = Some (rid p)).
+Proof. intros c. exact (conj (top_parent_is_root c) (inner_parent_is_node c)). Qed.
+Print Assumptions C10_misc_parent_slot.
+
+(* Tree.system_root: its children are the top-level nodes; Tree.first_child/last_child are its first/last child;
+   Node.get_children() is Node.children, Node.path is get_path() with the default arguments *)
+Theorem C10_misc_system_root_children : forall f,
+  ent_children f system_root = tr_children f /\ tree_first_child f = tr_first_child f /\ tree_last_child f = tr_last_child f.
+Proof. exact root_children. Qed.
+Print Assumptions C10_misc_system_root_children.
+
+Theorem C10_misc_get_children_path : forall c f,
+  ent_children f (ENode c) = q_children c /\ node_get_children c = q_children c /\ node_path c = q_path c true.
+Proof. intros c f. exact (conj (proj1 (node_children c f)) (conj (proj2 (node_children c f)) (node_path_default c))). Qed.
+Print Assumptions C10_misc_get_children_path.
+
+(* Tree.__eq__ raises NotImplementedError for EVERY argument *)
+Theorem C10_misc_tree_eq_raises : forall (X : Type) (other : X), tree_eq other = inl E_NOTIMPL.
+Proof. exact tree_eq_always_raises. Qed.
+Print Assumptions C10_misc_tree_eq_raises.
+
+(* len(tree) = tree.count = number of nodes of the forest; bool(tree) iff the tree is not empty *)
+Theorem C10_misc_len_count_bool : forall f reg, reg_ok f reg ->
+  tree_len reg = tree_count reg /\ tree_count reg = tr_count f /\ (tree_bool reg = true <-> f <> []).
+Proof. exact count_consistent. Qed.
+Print Assumptions C10_misc_len_count_bool.
+
+(* get_random_node: which node – position (draw mod count) of the registry *)
+Theorem C10_misc_random_node_position : forall reg d, reg <> [] ->
+  get_random_node reg d = inr (nth (Z.to_nat (d mod Z.of_nat (length reg))) reg 0).
+Proof. exact grn_position. Qed.
+Print Assumptions C10_misc_random_node_position.
+
+(* the result is a node of the tree *)
+Theorem C10_misc_random_node_member : forall f reg d n, reg_ok f reg -> get_random_node reg d = inr n -> In n (ids f).
+Proof. exact grn_member. Qed.
+Print Assumptions C10_misc_random_node_member.
+
+(* every node can be drawn (the last one too); the draws 0..count-1 deliver the registry in its order, each node once per entry *)
+Theorem C10_misc_random_node_surjective : forall f reg n, reg_ok f reg -> In n (ids f) ->
+  exists d, (0 <= d < Z.of_nat (tree_count reg))%Z /\ get_random_node reg d = inr n.
+Proof. exact grn_surjective. Qed.
+Print Assumptions C10_misc_random_node_surjective.
+
+Theorem C10_misc_random_node_enumerates : forall reg,
+  map (fun k => get_random_node reg (Z.of_nat k)) (seq 0 (length reg)) = map inr reg.
+Proof. exact grn_enumerates. Qed.
+Print Assumptions C10_misc_random_node_enumerates.
+
+Theorem C10_misc_random_node_periodic : forall reg d k, get_random_node reg (d + k * Z.of_nat (length reg)) = get_random_node reg d.
+Proof. exact grn_periodic. Qed.
+Print Assumptions C10_misc_random_node_periodic.
+
+(* on an empty tree the code raises IndexError (random.choice of an empty list) – and fails in no other situation *)
+Theorem C10_misc_random_node_fails_iff_empty : forall f reg d, reg_ok f reg -> (get_random_node reg d = inl E_INDEX <-> f = []).
+Proof. exact grn_fails_iff_empty. Qed.
+Print Assumptions C10_misc_random_node_fails_iff_empty.
+
+(* __repr__ as exact text functions of (class name, name, data_id, kind): a plain node quotes its NAME (repr) and prints
+   the data_id bare (str); a typed node prints kind and name bare and quotes a str DATA_ID; int ids print alike *)
+Theorem C10_misc_repr_text : forall cls name d k t,
+  node_repr cls t = repr_of cls (i_name (rinfo t)) (rdid t) (rkind t) /\
+  repr_of cls name d None = cls ++ [60%Z] ++ repr_text name ++ t_data_id_eq ++ did_str d ++ [62%Z] /\
+  repr_of cls name d (Some k) = cls ++ t_kind_eq ++ k ++ t_sep ++ name ++ t_data_id_eq ++ did_repr d ++ [62%Z].
+Proof. intros. exact (conj (node_repr_fields cls t) (conj (repr_plain cls name d) (repr_typed cls name d k))). Qed.
+Print Assumptions C10_misc_repr_text.
+
+(* the text determines the name (for every name of valid code points; quotes and backslashes included) *)
+Theorem C10_misc_repr_name_injective : forall cls a b d,
+  Forall cp_ok a -> Forall cp_ok b ->
+  (repr_of cls a d None = repr_of cls b d None -> a = b) /\
+  (forall k, repr_of cls a d (Some k) = repr_of cls b d (Some k) -> a = b) /\
+  (tree_repr cls a = tree_repr cls b -> a = b).
+Proof.
+  intros cls a b d Ha Hb.
+  exact (conj (repr_plain_name_injective cls a b d Ha Hb)
+              (conj (fun k => repr_typed_name_injective cls a b d k) (tree_repr_name_injective cls a b Ha Hb))).
+Qed.
+Print Assumptions C10_misc_repr_name_injective.
+
+(* a name without quote and backslash (printable ASCII) is shown between apostrophes unchanged *)
+Theorem C10_misc_repr_plain_names : forall s, forallb plain_char s = true -> repr_text s = [39%Z] ++ s ++ [39%Z].
+Proof. exact repr_text_plain. Qed.
+Print Assumptions C10_misc_repr_plain_names.
+
+(* the system root's repr uses the data_id constant of the source *)
+Example C10_misc_ex_root_repr :
+  root_repr false [82]%Z [84]%Z ROOT_DATA_ID = [82; 60; 39; 84; 39; 44; 32; 100; 97; 116; 97; 95; 105; 100; 61; 95; 95; 114; 111; 111; 116; 95; 95; 62]%Z /\
+  root_repr true [82]%Z [84]%Z ROOT_DATA_ID =
+    [82; 60; 107; 105; 110; 100; 61; 78; 111; 110; 101; 44; 32; 84; 44; 32; 100; 97; 116; 97; 95; 105; 100; 61; 39; 95; 95; 114; 111; 111; 116; 95; 95; 39; 62]%Z.
+Proof. vm_compute. split; reflexivity. Qed.
+
+Example C10_misc_ex_random :
+  map (get_random_node [3; 1; 2]) [0; 1; 2; 3; -1; 1000003]%Z = [inr 3; inr 1; inr 2; inr 3; inr 2; inr 1] /\
+  get_random_node [] 0%Z = inl E_INDEX /\ reg_ok ex_forest [3; 1; 2].
+Proof. exact ex_random_nodes. Qed.
+
+Example C10_misc_ex_reprs :
+  map (node_repr [78; 111; 100; 101]%Z) (pre_f ex_forest) =
+  [ [78; 111; 100; 101; 60; 39; 97; 39; 44; 32; 100; 97; 116; 97; 95; 105; 100; 61; 45; 55; 62];
+    [78; 111; 100; 101; 60; 34; 105; 116; 39; 115; 34; 44; 32; 100; 97; 116; 97; 95; 105; 100; 61; 105; 100; 62];
+    [78; 111; 100; 101; 60; 39; 98; 39; 44; 32; 100; 97; 116; 97; 95; 105; 100; 61; 53; 62] ]%Z /\
+  repr_of [84]%Z [110]%Z (DStr [105; 100]%Z) (Some [107]%Z) =
+    [84; 60; 107; 105; 110; 100; 61; 107; 44; 32; 110; 44; 32; 100; 97; 116; 97; 95; 105; 100; 61; 39; 105; 100; 39; 62]%Z.
+Proof. exact ex_reprs. Qed.
+
+(* ==== PART FORWARD: Node.__getattr__, the attribute forwarding of Tree(forward_attrs=True) (model theories/Forest/MiscForward.v,
+   correspondence Cases/CaseMiscForward.v, harness parts_misc.FORWARD).  [own] = the names the normal lookup finds on the node
+   (slots, properties, methods); [tree_forward] = None for a node without a tree, else the tree's flag. ==== *)
+Import MiscForward MiscForwardProofs.
+
+(* a native name is never forwarded, whatever the data object has under that name *)
+Theorem C10_forward_native_names_shadow : forall own tf attrs name, In name own -> node_getattr own tf attrs name = GOwn.
+Proof. exact own_names_shadow. Qed.
+Print Assumptions C10_forward_native_names_shadow.
+
+(* forwarded exactly when the name is not native, the node has a tree with forward_attrs on, and the data object has the attribute *)
+Theorem C10_forward_iff : forall own tf attrs name v,
+  node_getattr own tf attrs name = GData v <-> ~ In name own /\ tf = Some true /\ d_get attrs name = Some v.
+Proof. exact forwarded_iff. Qed.
+Print Assumptions C10_forward_iff.
+
+(* with forward_attrs off (the default), and on a removed node, nothing is ever forwarded *)
+Theorem C10_forward_off : forall own tf attrs name, tf <> Some true ->
+  node_getattr own tf attrs name = GOwn \/ node_getattr own tf attrs name = GAttrErr.
+Proof. exact no_forwarding. Qed.
+Print Assumptions C10_forward_off.
+
+(* the lookup goes to the data object each time: a changed attribute is seen *)
+Theorem C10_forward_sees_updates : forall own attrs name v,
+  ~ In name own -> node_getattr own (Some true) (d_set attrs name v) name = GData v.
+Proof. exact forwarding_sees_updates. Qed.
+Print Assumptions C10_forward_sees_updates.
+
+Example C10_forward_ex :
+  map (node_getattr [[110; 97; 109; 101]%Z] (Some true) [([110; 97; 109; 101]%Z, PStr [65]%Z); ([97; 103; 101]%Z, PInt 23)])
+      [[110; 97; 109; 101]%Z; [97; 103; 101]%Z; [120]%Z] = [GOwn; GData (PInt 23); GAttrErr].
+Proof. reflexivity. Qed.
+
+(* tie to the source (gen_facts section MISC): every name of the documented list of native attributes is found on the Node
+   class itself (so it is never forwarded); `kind` is native on a TypedNode only – a plain node forwards it *)
+Theorem C10_forward_native_names_from_source :
+  GEN_MISC_OK = true /\
+  forallb (fun n => mem_text n NODE_ATTR_NAMES)
+    [[99; 104; 105; 108; 100; 114; 101; 110]; [100; 97; 116; 97; 95; 105; 100]; [100; 97; 116; 97]; [109; 101; 116; 97];
+     [110; 111; 100; 101; 95; 105; 100]; [112; 97; 114; 101; 110; 116]; [116; 114; 101; 101]; [110; 97; 109; 101]; [112; 97; 116; 104]]%Z = true /\
+  mem_text [107; 105; 110; 100]%Z NODE_ATTR_NAMES = false /\ mem_text [107; 105; 110; 100]%Z TYPED_NODE_EXTRA_ATTR_NAMES = true.
+Proof. vm_compute. repeat split. Qed.
+Print Assumptions C10_forward_native_names_from_source.
+
+(* ---- Node.__eq__ and hash(node) (part NODEMISC; every ordered pair of nodes is compared on every case) ---- *)
+(* `node == other` compares the DATA objects: an equivalence on nodes that ignores identity, kind, data_id, meta and position
+   (so clones, and different nodes holding equal-comparing data, are ==; use `is` for identity); a node equals its own data object *)
+Theorem C10_misc_node_eq : 
+  (forall a, MiscNode.node_eq a a = true) /\ (forall a b, MiscNode.node_eq a b = MiscNode.node_eq b a) /\
+  (forall a b c, MiscNode.node_eq a b = true -> MiscNode.node_eq b c = true -> MiscNode.node_eq a c = true) /\
+  (forall id1 id2 i1 i2 ch1 ch2, i_eqc i1 = i_eqc i2 -> MiscNode.node_eq (T id1 i1 ch1) (T id2 i2 ch2) = true) /\
+  (forall a, MiscNode.node_eq_obj a (i_eqc (rinfo a)) = true).
+Proof.
+  destruct MiscNodeProofs.node_eq_equivalence as (R & S & Tr).
+  exact (conj R (conj S (conj Tr (conj MiscNodeProofs.node_eq_data_only MiscNodeProofs.node_eq_own_data)))).
+Qed.
+Print Assumptions C10_misc_node_eq.
+
+(* Node defines __eq__ and no __hash__: hash(node) raises TypeError for every node (nodes cannot be set members or dict keys) *)
+Theorem C10_misc_node_unhashable : forall (X : Type) (n : X), MiscNode.node_hash n = inl MiscNode.E_TYPE.
+Proof. exact MiscNodeProofs.node_hash_always_raises. Qed.
+Print Assumptions C10_misc_node_unhashable.
+
+Example C10_misc_node_eq_ex :
+  MiscNode.node_eq (T 1 (I 0 7 0 true [97]%Z (DInt 1) None []) []) (T 2 (I 5 7 0 true [97]%Z (DStr [120]%Z) (Some [107]%Z) []) [T 3 (I 1 1 1 true [] (DInt 2) None []) []]) = true.
+Proof. reflexivity. Qed.
